@@ -3,7 +3,7 @@
    driver only moves characters.  Field kinds: decimal number, hex byte string, and lists
    `L:hex:hex...` (`L` = empty list, `L:` = one empty string). *)
 From Scrapli Require Import Bytes Regex PlatformTypes Generated Generic Netconf Channel Replay Queue Telnet NcSession Session Network SshArgs.
-From Scrapli Require Pipes Options OptionsRun.
+From Scrapli Require Pipes Options OptionsRun CloseRun.
 Open Scope N_scope.
 
 Definition COLON : N := 58.
@@ -452,6 +452,7 @@ Definition dispatch (fs : list bytes) : list bytes :=
   else if beqb name (bs "c16") then Pipes.run_c16 fs
   else if beqb name (bs "c19") then OptionsRun.run_c19 fs
   else if beqb name (bs "pf") then run_pf fs
+  else if is_prefix (bs "c07") name then CloseRun.run_c07 fs
   else [bs "unknown-case"].
 
 Definition run_line (line : bytes) : bytes := unfields (dispatch (fields line)).
